@@ -14,7 +14,7 @@ from inscripta.biocantor.gene.transcript import TranscriptInterval
 from inscripta.biocantor.io.gff3.exc import GFF3ExportException
 from inscripta.biocantor.io.gff3.rows import GFFAttributes, GFFRow
 
-from harness.common import AND, MINUS, NOT, OR, PLUS, GENOME40, Strand, chrom_parent, chunk_parent, sname
+from harness.common import AND, ITE, MINUS, NOT, OR, PLUS, GENOME40, Strand, chrom_parent, chunk_parent, sname
 from vlib.obl import Obl
 from vlib.sym import concretize, untraced
 from vlib.tok import untok
@@ -151,6 +151,43 @@ def gene_rows_fn(strand, frames, mode):
         for (s, e), ph in zip(cds, phases):
             expect.append(("CDS", s, e, sym, ph))
         return check_rows(rows, expect, off)
+
+    return fn
+
+
+def rows_cut_fn(strand):
+    """chunk-relative export of a (non-coding, 2-exon) transcript that the chunk window CUTS anywhere - inside an exon, inside the intron, exactly at an exon
+    edge: exon rows are exactly the non-empty parts of the exons inside the window, in chunk coordinates (1-based, start <= end <= chunk length)"""
+    sym = "+" if strand is PLUS else "-"
+    Lc = 30
+
+    def fn(s0, l0, g, l1, w):
+        ex = [(s0, s0 + l0), (s0 + l0 + g, s0 + l0 + g + l1)]
+        par = chunk_parent(w, Lc)
+        t = TranscriptInterval([e[0] for e in ex], [e[1] for e in ex], strand, guid=801, transcript_id="tx1", sequence_name="chr1", parent_or_seq_chunk_parent=par)
+        gene = GeneInterval([t], guid=800, gene_id="gid", sequence_name="chr1", parent_or_seq_chunk_parent=par)
+        rows = [str(r).split("\t") for r in gene.to_gff(chromosome_relative_coordinates=False)]
+        conds = []
+        exon_rows = []
+        for cols in rows:
+            if len(cols) != 9:
+                return False
+            st, en = untok(cols[3]), untok(cols[4])
+            conds.append(AND(1 <= st, st <= en, en <= Lc))
+            if cols[2] == "exon":
+                if cols[6] != sym:
+                    return False
+                exon_rows.append((st, en))
+        inside = [AND(s < w + Lc, w < e) for s, e in ex]
+        # number of exon rows == number of exons with a base inside the window; each such exon has its row
+        from vlib.sym import COUNT
+
+        conds.append(len(exon_rows) == COUNT(inside))
+        for (s, e), ins in zip(ex, inside):
+            lo = ITE(s > w, s, w) - w + 1
+            hi = ITE(e < w + Lc, e, w + Lc) - w
+            conds.append(OR(NOT(ins), OR(*[AND(r[0] == lo, r[1] == hi) for r in exon_rows]) if exon_rows else False))
+        return AND(*conds)
 
     return fn
 
@@ -602,6 +639,14 @@ def obligations(tier):
                                     "unique IDs, every Parent defined earlier, rows ordered by start, %s coordinates" % ("chunk" if mode == "chunk_rel" else "chromosome"),
                                bounds="2 exons, CDS frames %s, unbounded symbolic coordinates%s" % (frames, ", chunk of length 30 at symbolic offset" if mode else ""),
                                examples=[ex] if mode else [ex, dict(ex, fs=ex["s0"] + 1)]))
+    for strand in (PLUS, MINUS):
+        out.append(Obl("rows_cut_by_chunk_%s" % sname(strand), rows_cut_fn(strand), dict(s0=int, l0=int, g=int, l1=int, w=int),
+                       lambda s0, l0, g, l1, w: s0 >= 0 and l0 >= 1 and g >= 1 and l1 >= 1 and w >= 0 and (s0 < w + 30 and w < s0 + l0 + g + l1) and
+                       ((s0 < w + 30 and w < s0 + l0) or (s0 + l0 + g < w + 30 and w < s0 + l0 + g + l1)), budget=900, cost=120, stubs=dict(tokens=True),
+                       desc="chunk-relative rows of a transcript CUT by the chunk window (inside an exon, in the intron, exactly at an exon edge): every row is a valid "
+                            "1-based interval inside the chunk and the exon rows are exactly the non-empty in-window parts of the exons",
+                       bounds="2 exons, chunk length 30 at a symbolic offset, unbounded symbolic coordinates (at least one exon base inside the window)",
+                       examples=[dict(s0=2, l0=6, g=4, l1=8, w=5), dict(s0=2, l0=6, g=4, l1=8, w=8), dict(s0=20, l0=6, g=4, l1=80, w=0)]))
     out.append(Obl("escape_tables", _smt_escape, {}, None, kind="smt", twin=False, cost=3, concrete=_escape_concrete,
                    desc="live escape tables: pattern alternatives == map keys; every reserved character (tab, newline, CR, ; = > space %% and , in the "
                         "with-comma map) is a key (z3 over all code points); every image is %% + the two upper-case hex digits of the code point",
